@@ -189,4 +189,21 @@ def worldOk (cs : List Conn) (eA eB : List Nat) : Bool :=
     if c.aInit then (kB.length == 1 && kB.all (fun x => kA.contains x))
     else (kA.length == 1 && kA.all (fun x => kB.contains x))
 
+/-- End-to-end outcome oracle: `dirs[i] = true` iff node A dialled connection `i`;
+`kept*` are the connection indices each node still lists at quiescence, `ready*` the
+connections reported ready that are still alive. Both nodes keep the same single connection,
+it is the only live ready one, and when both directions were dialled it is a dial of the
+node whose name sorts last (`o = compare nameB nameA`). -/
+def e2eOk (o : Ordering) (dirs : List Bool) (keptA keptB readyA readyB : List Nat) : Bool :=
+  match keptA, keptB with
+  | [i], [j] =>
+    i == j && decide (i < dirs.length) && readyA == [i] && readyB == [j] &&
+    (if dirs.any (· == true) && dirs.any (· == false) then
+       (match o with
+        | .lt => dirs[i]? == some true
+        | .gt => dirs[i]? == some false
+        | .eq => true)
+     else true)
+  | _, _ => false
+
 end Election
